@@ -140,4 +140,44 @@ def proxyRootChildren (t : PTree) (perms : List Nat) : List (String × Nat) :=
     | some nd => if usable perms nd then some (nd.name, id) else none
     | none => none
 
+/-- strip the outer `node 0 … up` of the filtered root: the walks of its children -/
+def stripRoot : List Tok → List Tok
+  | .node 0 :: r => r.dropLast
+  | ts => ts
+
+/-! ### histories: several commands packets on one backend connection
+
+`backendPlaySessionHandler.handleAvailableCommands` reads the proxy's command tree, the player's permissions and the
+packet, and writes no field of the handler: the handler state that matters to it is trivial. A history is a list of
+steps, each with the proxy tree, the requirement outcomes (permissions) and the backend's root children CURRENT at
+that packet. -/
+
+structure Step where
+  tree : PTree
+  perms : List Nat
+  backend : List BNode
+  deriving DecidableEq, Repr
+
+/-- what the player gets for one commands packet -/
+inductive Delivered where
+  | panicked                                     -- a requirement panicked: no packet is written
+  | diverges
+  | tree (root : List MNode) (sub : List Tok)    -- merged root children, walk of the injected proxy nodes
+  deriving DecidableEq, Repr
+
+def deliver (s : Step) : Delivered :=
+  match filter s.tree s.perms (fuelFor s.tree) 0 with
+  | .ok ts => .tree (merge s.backend (proxyRootChildren s.tree s.perms)) (stripRoot ts)
+  | .panicked => .panicked
+  | .diverges => .diverges
+
+/-- the part of backendPlaySessionHandler that handleAvailableCommands writes: nothing -/
+abbrev HState := Unit
+
+def handlePacket (h : HState) (s : Step) : HState × Delivered := (h, deliver s)
+
+def runHistory (h : HState) : List Step → List Delivered
+  | [] => []
+  | s :: r => (handlePacket h s).2 :: runHistory (handlePacket h s).1 r
+
 end Gate.C23
